@@ -526,6 +526,15 @@ func (di *defIndex) rootOf(info *types.Info, e ast.Expr, depth int) types.Object
 		if len(x.Args) > 0 {
 			return di.rootOf(info, x.Args[0], depth+1)
 		}
+	case *ast.CompositeLit:
+		for _, el := range x.Elts {
+			if kv, ok := el.(*ast.KeyValueExpr); ok {
+				el = kv.Value
+			}
+			if r := di.rootOf(info, el, depth+1); r != nil {
+				return r
+			}
+		}
 	case *ast.StarExpr:
 		return di.rootOf(info, x.X, depth+1)
 	case *ast.UnaryExpr:
